@@ -424,6 +424,8 @@ class StrV(Val):
 
 
 class Num(Val):
+    _uid = 0
+
     """float/complex scalar or ndarray.
     deg:   D1 exponents per component (Fraction | sympy | TOP)
     log:   None, or dict comp -> coefficient for an additive ("log") type: the value shifts by
@@ -452,6 +454,17 @@ class Num(Val):
         self.seg = None         # D3 index map (list of segmap.Seg) when the array is a re-arrangement
         self.segax = 0          # axis the index map describes (arrays of rank > 1)
         self.mirror = False     # the vector is the complex conjugate of a spectrum-bearing vector (rows of Vh)
+        self.sz = sp.Integer(1)  # normalisation signature: product of explicit size factors applied so far (None = mixed)
+        Num._uid += 1
+        self.uid = Num._uid     # identity of the abstract value (forwarding / exposure rules)
+
+    def with_taint(self, t):
+        if not t or t <= self.taint:
+            return self
+        c = self.copy(seg=self.seg, segax=self.segax)
+        c.taint = self.taint | t
+        c.uid = self.uid        # the same value, only its dependence set grew
+        return c
 
     def copy(self, **kw):
         n = Num(dict(self.deg), self.shape, self.cplx, self.zero, dict(self.log) if self.log else self.log,
@@ -461,6 +474,7 @@ class Num(Val):
         n.seg = None            # index maps never survive an implicit copy: each operation sets its own
         n.segax = 0
         n.mirror = self.mirror
+        n.sz = self.sz
         for k, v in kw.items():
             setattr(n, k, v)
         return n
@@ -604,6 +618,10 @@ def tonum(v):
         n = Num(d, (), False, taint=v.taint, nonneg=False)
         n.ex = v.a
         n.sx = v.sx
+        if v.a is not None and not v.a.is_const():
+            n.sz = v.a.to_sympy()
+        elif v.a is None and v.sx is not None:
+            n.sz = v.sx
         return n
     if isinstance(v, BoolV):
         return Num(zero_deg(), (), False, taint=v.taint)
@@ -683,6 +701,7 @@ def num_join(a, b):
     r.zero = a.zero and b.zero
     r.ex = a.ex if (a.ex is not None and b.ex is not None and a.ex == b.ex) else None
     r.mirror = a.mirror if (b.zero or a.mirror == b.mirror) else (b.mirror if a.zero else False)
+    r.sz = sz_join(a, b)
     if a.seg is not None or b.seg is not None:
         from . import segmap
         if a.zero and a.seg is None:
@@ -748,3 +767,18 @@ class HObj:
 
     def copy(self):
         return HObj(self.cls, dict(self.f))
+
+
+def sz_join(a, b):
+    if a.zero:
+        return b.sz
+    if b.zero:
+        return a.sz
+    if a.sz is None or b.sz is None:
+        return None
+    if a.sz is b.sz:
+        return a.sz
+    try:
+        return a.sz if sp.cancel(sp.together(a.sz - b.sz)) == 0 else None
+    except Exception:
+        return None
